@@ -64,6 +64,8 @@ where
     type State = HtmlViewState<At>;
 
     fn build(self) -> Self::State {
+        #[cfg(leptos_verif)]
+        let document = leptos::tachys::renderer::dom::document;
         let el = document()
             .document_element()
             .expect("there to be a <html> element");
@@ -142,6 +144,8 @@ where
         _cursor: &Cursor,
         _position: &PositionState,
     ) -> Self::State {
+        #[cfg(leptos_verif)]
+        let document = leptos::tachys::renderer::dom::document;
         let el = document()
             .document_element()
             .expect("there to be a <html> element");
@@ -178,6 +182,8 @@ where
     }
 
     fn elements(&self) -> Vec<leptos::tachys::renderer::types::Element> {
+        #[cfg(leptos_verif)]
+        let document = leptos::tachys::renderer::dom::document;
         vec![document()
             .document_element()
             .expect("there to be a <html> element")]
